@@ -100,6 +100,7 @@ fn pool_image(total: usize, long_refs: bool, rng: &mut Prng) -> ForeignSpec {
             docsummary: false,
             shuffle_catalog: false,
             catalog_first: false,
+            stale_validation: Vec::new(),
         }
     };
     // the catalog contributes its own strings: measure, then size the table
